@@ -7,4 +7,7 @@ def main : IO Unit := do
   let _ ← report "isTokenBoundary" allBytes (fun b => toString b.toNat) Generated.PureHttp.isTokenBoundary Req.Validate.isTokenBoundary
   let _ ← report "isASCIILetter" allBytes (fun b => toString b.toNat) Generated.PureHttp.isASCIILetter Req.Ascii.isAlpha
   let _ ← report "stringContainsCTLByte" strings hex Generated.PureHttp.stringContainsCTLByte (fun s => Res.ok (s.any Req.Validate.isCTL))
+  let lowerTokens : List Bytes := [[99, 108, 111, 115, 101], [107, 101, 101, 112, 45, 97, 108, 105, 118, 101], [97], [97, 32], [104, 111, 115, 116]]
+  let tokPairs : List (Bytes × Bytes) := (strings.take 700 ++ mixed).flatMap fun v => lowerTokens.map fun t => (v, t)
+  let _ ← report "hasToken" tokPairs (fun p => hex p.1 ++ "," ++ hex p.2) (fun p => Generated.PureHttp.hasToken p.1 p.2) (fun p => Res.ok (Req.Validate.hasToken p.1 p.2))
   let _ ← report "trim" strings hex Generated.PureHttp.trim (fun s => Res.ok (Req.H1.trimOWS s))
